@@ -44,6 +44,7 @@ def check(repo: Repo) -> Result:
     mismatch_nest(repo, res, a)
     eq_ne(repo, res, a)
     merging_handlers(repo, res)
+    masked_copy(repo, res, "C01-R4")
     conversion_gate(repo, res)
     unit_additive(repo, res)
     no_write_before_refusal(repo, res, a)
@@ -325,6 +326,41 @@ def merging_handlers(repo, res):
     res.check(cls is not None, "exception-class", "unyt/exceptions.py", "UnitInconsistencyError exists", rid=r4v)
 
 
+def masked_copy(repo, res, rid):
+    """np.copyto(dst, src, where=mask) overwrites only part of dst: dst keeps its unit and the source values must arrive
+    in it (converted, which refuses another dimension).  Relabelling dst with the source's unit - right for the full copy -
+    would relabel the elements that were not copied.  Decided on the handler: there is a branch whose test contains
+    `<where> is not True` next to nothing but has-units tests on dst / src; inside it the implementation receives
+    `src.to(dst.units)` (or in_units) and dst.units is not assigned."""
+    mod = repo.mod(AF)
+    fn = mod.func("copyto")
+    res.fn(fn)
+    dst, src = fn.params[0], fn.params[1]
+    wnames = set()
+    for n in walk_no_nested(fn.node):
+        if isinstance(n, ast.Assign) and len(n.targets) == 1 and isinstance(n.targets[0], ast.Name) and ("'where'" in norm(n.value) or '"where"' in norm(n.value)):
+            wnames.add(n.targets[0].id)
+    ok, found = False, "no branch on the where argument"
+    for n in walk_no_nested(fn.node):
+        if not isinstance(n, ast.If):
+            continue
+        atoms = n.test.values if isinstance(n.test, ast.BoolOp) and isinstance(n.test.op, ast.And) else [n.test]
+        texts = [norm(a) for a in atoms]
+        masked = [t for t in texts if any(t in (f"{w} is not True", f"not {w} is True") for w in wnames)]
+        if not masked:
+            continue
+        others = [t for t in texts if t not in masked]
+        units_tests = all(("units" in t and (dst in t or src in t)) for t in others)
+        body_txt = [norm(x) for x in n.body]
+        stores = [t for t in body_txt if t.startswith(f"{dst}.units =")]
+        impl = [c for c in ast.walk(ast.Module(body=n.body, type_ignores=[])) if isinstance(c, ast.Call) and norm(c.func).endswith("copyto._implementation")]
+        conv = bool(impl) and all(len(c.args) >= 2 and norm(c.args[0]) == dst and norm(c.args[1]) in (f"{src}.to({dst}.units)", f"{src}.in_units({dst}.units)", f"np.asarray({src}.to({dst}.units))", f"{src}.to_value({dst}.units)") for c in impl)
+        leaves = bool(n.body) and isinstance(n.body[-1], ast.Return)
+        ok = units_tests and not stores and conv and leaves
+        found = f"if {norm(n.test)}: {body_txt[:2]}"
+    res.check(ok, "copyto:masked-copy-converts", fn.where(), "np.copyto with a where mask between two quantities must convert the source into the destination's unit and leave the destination's unit alone: relabelling dst with the source's unit relabels the elements that were not copied (dst [1, 2, 3] m, src in s, one element copied: all three read as seconds)", "if where is not True and both have units: copyto(dst, src.to(dst.units)); return", found, rid=rid)
+
+
 def conversion_gate(repo, res):
     r5 = res.rule("C01-R5", "conversion gate: dimension test dominates every conversion factor; every conversion entry point passes through it; item assignment converts or proves equal units", floor=8)
     uo = repo.mod(UO)
@@ -435,6 +471,7 @@ def no_write_before_refusal(repo, res, a):
 
 
 MUTANTS = [
+    Mutant("masked-copyto-relabels", AF, "copyto", "        np.copyto._implementation(dst, src.to(dst.units), *args, **kwargs)\n        return\n", "        pass\n", ("C01-R4",)),
     Mutant("bare-operand-borrows-unit", ARR, "unyt_array.__array_ufunc__", '            if u1 is None and ufunc is not power:\n                u1 = Unit(registry=getattr(u0, "registry", None))', "            if u1 is None and ufunc is not power:\n                u1 = u0", ("C01-R10",)),
     Mutant("hypot-passthrough", ARR, None, "hypot: _preserve_units,", "hypot: _passthrough_unit,", ("C01-R1",)),
     Mutant("less-unchecked", ARR, None, "less: _comparison_unit,", "less: _return_without_unit,", ("C01-R1",)),
